@@ -152,7 +152,11 @@ theorem decodeLoop_jump_last (app : App) (ctx : Model.Context) (c : Int) :
             obtain ⟨_, _, rfl⟩ := hr
             exact ⟨outBus.inside, _, inside_add' _ _ _, hj⟩
           · simp only [hj, Bool.false_eq_true, if_false] at hr
-            refine ih _ du' _ inBus' _ outBus' hr ?_ h1
-            split <;> exact h0
+            split at hr
+            · simp only [pure, Except.pure, Except.ok.injEq, Prod.mk.injEq] at hr
+              obtain ⟨rfl, _, _⟩ := hr
+              simp only at h1
+              rw [h0] at h1; cases h1
+            · exact ih _ du' _ inBus' _ outBus' hr h0 h1
 
 end Proofs.Mvp60Jump
